@@ -318,7 +318,11 @@ impl WriteAheadLog {
 
         // Try to write to block zero first
         if self.current_block.is_none() {
-            if self.header.available_space() >= record_size {
+            // Block zero may only take the record while it is the only block: once the log has grown
+            // (e.g. it was reopened with numbered blocks on disk) a record placed in the space left
+            // in block zero would be read back before the older records of the numbered blocks.
+            let only_block_zero = self.header.metadata().wal_header.total_blocks <= 1;
+            if only_block_zero && self.header.available_space() >= record_size {
                 self.header.try_push(lsn, record)?;
                 return Ok(());
             }
